@@ -1,29 +1,20 @@
-"""Build targets (harness executables) and per-property check definitions."""
+"""Build targets (harness executables) and per-property check definitions.
 
-EVENTS_SHIMS = ["shim_events.c", "shim_events_immediate.c", "shim_events_network.c", "shim_events_timer.c",
-                "shim_timerqueue.c", "shim_ptrheap.c"]
-EVENTS_REPO = ["events/events_network_selectstats.c", "datastruct/elasticarray.c", "util/monoclock.c", "util/warnp.c"]
+Each module lib/checks/<name>.py may define TARGETS (dict), CHECKS (dict) and CLAIMS (dict);
+they are merged here.
+"""
+import glob
+import importlib.util
+import os
 
-TARGETS = {
-    "h_events": dict(harness=["h_events.c"], engine=["vf.c", "mc.c"], shims=EVENTS_SHIMS, repo=EVENTS_REPO),
-}
-
-CHECKS = {}
-
-
-def events_check(prop):
-    return dict(
-        level="model_checking",
-        runs=[dict(name="events", target="h_events", args=["--prop", prop],
-                   quick=["--ops", "5", "--dev", "2", "--cb", "2", "--nfd", "2"],
-                   thorough=["--ops", "6", "--dev", "2", "--cb", "3", "--nfd", "3"])],
-        deadline=dict(quick=100, thorough=1500),
-        bounds=dict(quick="<=5 main-context operations, <=2 non-trivial callback actions, <=2 environment deviations, 2 descriptors",
-                    thorough="<=6 main-context operations, <=3 callback actions, <=2 deviations, 3 descriptors"),
-        assumptions=["poll(2), clock_gettime(2) replaced by the harness (link-time interposition)",
-                     "<=3 immediates, <=3 descriptors x 2 directions, <=2 timers live at once"],
-    )
-
-
-CHECKS["C04"] = events_check("C04")
-CHECKS["C05"] = events_check("C05")
+TARGETS, CHECKS, CLAIMS = {}, {}, {}
+_d = os.path.join(os.path.dirname(os.path.abspath(__file__)), "checks")
+for _f in sorted(glob.glob(os.path.join(_d, "*.py"))):
+    _spec = importlib.util.spec_from_file_location("checks_" + os.path.basename(_f)[:-3], _f)
+    _m = importlib.util.module_from_spec(_spec)
+    _spec.loader.exec_module(_m)
+    for _name, _dst in (("TARGETS", TARGETS), ("CHECKS", CHECKS), ("CLAIMS", CLAIMS)):
+        for _k, _v in getattr(_m, _name, {}).items():
+            if _k in _dst:
+                raise SystemExit("duplicate %s entry %s in %s" % (_name, _k, _f))
+            _dst[_k] = _v
